@@ -25,7 +25,7 @@ ASSUMPTIONS = [
     'reference environment: per-call locals, one globals map, library added only for missing names, built-ins last and only in expression mode',
 ]
 
-PATHS = ('direct', 'variable', 'partial1', 'partial2', 'indexof', 'sort', 'nested', 'datafilter')
+PATHS = ('direct', 'variable', 'partial1', 'partial2', 'partial-of-partial', 'indexof', 'sort', 'nested', 'datafilter')
 
 
 def bind(nparams, last, args):
@@ -79,6 +79,11 @@ def _convention_case(nparams, last, nargs, path):
         bound = [101] if path == 'partial1' else [101, 102]
         src = callee_source(nparams, last, ret_array, _SEP) + [f'pf = systemPartial(ff, {", ".join(map(str, bound))})', f'return pf({arg_text})']
         actual = bound + args
+        return src, [log_of(actual)], bind(nparams, last and nparams > 0, actual)
+    if path == 'partial-of-partial':
+        # systemPartial(systemPartial(ff, 101), 102, 103)(args): bound arguments accumulate left to right
+        src = callee_source(nparams, last, ret_array, _SEP) + ['pf = systemPartial(systemPartial(ff, 101), 102, 103)', f'return pf({arg_text})']
+        actual = [101, 102, 103] + args
         return src, [log_of(actual)], bind(nparams, last and nparams > 0, actual)
     if path == 'indexof':
         # predicate called with one argument per element until the result is truthy (a non-empty array)
@@ -597,7 +602,7 @@ def families(tier):
     hshards = [(length, [f]) for length in range(1, hlen + 1) for f in range(len(evs))]
     hosts = [{'mask': m, 'p': p, 'kind': k} for k in (0, 1) for m in range(1 << len(HOST_NAMES)) for p in range(len(HOST_PROGRAMS)) if k == 0 or m]
     return [
-        Family('convention', fam_convention, split(cc, 16), 'parameters 0..3 x "..." x arguments 0..5 x 8 call paths', expected=len(cc)),
+        Family('convention', fam_convention, split(cc, 16), 'parameters 0..3 x "..." x arguments 0..5 x 9 call paths (+ header spellings)', expected=len(cc)),
         Family('scoping', fam_scoping, [[s] for s in seeds], f'BFS to fixpoint over {len(evs)} events from {len(seeds)} seed states (each shard a full search)', expected=len(seeds)),
         Family('histories', fam_histories, hshards, f'every event history of length <= {hlen} over the {len(evs)} events from the empty state, stepwise compared, without state merging', expected=sum(len(evs) ** k for k in range(1, hlen + 1))),
         Family('host', fam_host, split(hosts, 8), 'every subset of host-supplied names {arrayLength, mathAbs, abs, x} (bound to tagged host objects, and bound to null) x 8 programs', expected=len(hosts)),
